@@ -38,12 +38,91 @@ package contract
 //@   modifies *
 //@   opt ghost:bal ghost(bal_after_reset)
 //@   opt ghost:bal_stale true
+//@   opt ghost:reset_snap wcs
+//@   opt ghost:reset_count ghost(reset_count) + 1
 //@ smt all (declare-ghost bal_after_reset (Array Iface Int))
 //@ func (cc CallContext) ClearRedeemLogs()
 //@   iface
 //@   trusted
 //@   pure
+//@ func (cc CallContext) GetEventLogs(r)
+//@   iface
+//@   trusted
+//@   modifies *
+//@ func (cc CallContext) GetBTPMessages(r)
+//@   iface
+//@   trusted
+//@   modifies *
 //@ func (cc CallContext) Revision() (r)
 //@   iface
 //@   trusted
 //@   pure
+
+
+// ---------------------------------------------------------------------------
+// C16: a failed call frame is rolled back to the snapshot taken when the frame was entered
+// (ghosts: snap_taken / snap_count: the last snapshot Context.GetSnapshot handed out and how many;
+// reset_snap / reset_count: the snapshot of the last Context.Reset and how many)
+// ---------------------------------------------------------------------------
+//@ property C16
+//@ smt all (declare-ghost reset_snap Iface)
+//@ smt all (declare-ghost reset_count Int)
+//@ smt all (declare-ghost snap_taken Iface)
+//@ smt all (declare-ghost snap_count Int)
+//@ func (c Context) GetSnapshot() (s)
+//@   iface
+//@   trusted
+//@   pure
+//@   opt ghost:snap_taken s
+//@   opt ghost:snap_count ghost(snap_count) + 1
+
+// a frame is read-only exactly when its parent is or it is opened as a query
+//@ func NewFrame(p, h, l, ro, logger) (f)
+//@   arith int
+//@   pure
+//@   ensures [fields] f != nil && fresh(f) && f.parent == p && f.handler == h && f.isReadOnly == ((p != nil && p.isReadOnly) || ro) && f.snapshot == nil
+
+// entering a frame that may write takes a snapshot of the world state - exactly one, stored in the
+// frame - and links the frame under the current one
+//@ func (cc *callContext) pushFrame(handler, limit) (frame)
+//@   arith int
+//@   nosafety
+//@   modifies *
+//@   opt no-callee-pre
+//@   opt inline-none
+//@   opt protect cc.frame, cc.frame.isReadOnly
+//@   requires cc != nil && cc.frame != nil
+//@   ensures [snapshot_at_entry] !frame.isReadOnly ==> frame.snapshot == ghost(snap_taken) && ghost(snap_count) == old(ghost(snap_count)) + 1
+//@   ensures [linked] frame != nil && frame.parent == old(cc.frame) && cc.frame == frame && frame.isReadOnly == old(cc.frame.isReadOnly)
+
+// leaving a frame: on failure the world state goes back to the frame's own snapshot; logs, BTP
+// messages and fee payer information reach the parent only on success; the parent becomes current
+//@ func (cc *callContext) popFrame(success) (frame)
+//@   arith int
+//@   nosafety
+//@   modifies *
+//@   opt no-callee-pre
+//@   opt inline-none
+//@   opt protect cc.frame, cc.frame.parent, cc.frame.isReadOnly, cc.frame.snapshot
+//@   requires cc != nil && cc.frame != nil
+//@   callpre Reset: !success && !caller_frame.isReadOnly && wcs == old(cc.frame.snapshot) && caller_frame == old(cc.frame)
+//@   callpre applyFrameLogsOf: success
+//@   callpre applyBTPMessagesOf: success
+//@   callpre applyFeePayerInfoOf: success
+//@   ensures [failure_rolls_back] !success && !old(cc.frame.isReadOnly) ==> ghost(reset_snap) == old(cc.frame.snapshot) && ghost(reset_count) == old(ghost(reset_count)) + 1
+//@   ensures [popped] frame == old(cc.frame) && cc.frame == old(cc.frame.parent)
+
+// abandoning frames after a timeout or a system failure: the world state goes back to the snapshot
+// of the target frame (the outermost frame given up), not to that of an inner one
+//@ func (cc *callContext) cleanUpFrames(target, err)
+//@   arith int
+//@   nosafety
+//@   modifies *
+//@   opt no-callee-pre
+//@   opt inline-none
+//@   opt protect target.isReadOnly, target.snapshot
+//@   requires cc != nil && target != nil
+//@   callpre Reset: !caller_target.isReadOnly && wcs == caller_target.snapshot
+//@   ensures [target_snapshot] !target.isReadOnly ==> ghost(reset_snap) == target.snapshot && ghost(reset_count) == old(ghost(reset_count)) + 1
+//@   loop 0: invariant ghost(reset_count) == old(ghost(reset_count))
+//@   loop 1: invariant true
